@@ -503,6 +503,7 @@ func init() {
 			if vh.IsSim && time.Since(t0) != 0 {
 				vh.FlagAnomaly("c09 system burst took virtual time")
 			}
+			vh.Settle()
 			if got := num(sys.metricsJSON(), "rate_limited_requests"); got != int64(total429) {
 				o.Viol("C09|sys|metric", fmt.Sprintf("%s: %d requests were answered 429 but rate_limited_requests is %d", c.Strategy, total429, got), nil)
 			}
